@@ -103,7 +103,7 @@ def what_fn(ev, clause):
 def n_executions(events):
     n = 0
     for e in events:
-        n += len(e['runs']) if e['ev'] == 'sched' else len(e['rounds']) + (2 if 'reuse' in e else 0)
+        n += len(e['runs']) if e['ev'] == 'sched' else len(e.get('rounds', [0])) + (2 if 'reuse' in e else 0)
     return n
 
 
@@ -115,7 +115,7 @@ def conformance(check, mode, tier, key_fn, scenario_file=None):
     r = vlib.validate_trace(TRACE, trace, n_events=len(events), timeout=3000)
     bad = set(rej['line'] for rej in r['rejects'])
     # traces = executions (runs of the real iterator) whose observations TLC accepted
-    ok_exec = sum((len(e['runs']) if e['ev'] == 'sched' else len(e['rounds']) + (2 if 'reuse' in e else 0)) for i, e in enumerate(events, 1) if i not in bad)
+    ok_exec = sum((len(e['runs']) if e['ev'] == 'sched' else len(e.get('rounds', [0])) + (2 if 'reuse' in e else 0)) for i, e in enumerate(events, 1) if i not in bad)
     check.add_trace_result(r, events, key_fn, what_fn=what_fn, n_traces=ok_exec + len(bad))
     return events, r
 
